@@ -267,7 +267,7 @@ def _check(ctx):
                 ctx.violation(f"C10/limit-not-enforced/unterminated-{where}", {"cfg": cfg.spec(), "stream": hx(data), "cuts": [len(x) for x in segs]},
                               f"an unterminated {where} of {len(data)} bytes was accepted read after read (limits {cfg.max_line}/{cfg.max_field})")
     # mutations + raw bytes; the first ones come from a fixed stream (every mutation class, on every seed)
-    fixed = H.deterministic_mutants(6 if ctx.quick else 16)
+    fixed = H.deterministic_mutants(16)
     n = 1500 if ctx.quick else 40000
     for i in range(n + len(fixed)):
         r = rng.random()
@@ -310,6 +310,10 @@ def _check(ctx):
     # "which the server turns into a 400 response": malformed request streams through the real server
     from . import c01
     srv = []
+    for data, kind, response in fixed:         # every mutation class and variant, on every seed
+        if not response:
+            _, o = H.run_impl(H.Cfg(), [data], False)
+            srv.append((data, o))
     for _ in range(400 if ctx.quick else 6000):
         data = b"".join(H.gen_request(rng) for _ in range(rng.choice([1, 2])))
         data, kind = H.mutate(rng, data)
